@@ -625,7 +625,7 @@ def with_custom_operations(case: Dict[str, Any], i: int) -> None:
                             "input_types_module_name": "my_inputs", "fragments_module_name": "my_frags"})
     if i % 7 == 5:
         case["cfg"] = dict(case["cfg"])
-        case["cfg"].update({"include_all_inputs": False, "include_all_enums": False})
+        case["cfg"].update([{"include_all_inputs": False, "include_all_enums": False}, {"include_all_enums": False}, {"include_all_inputs": False}][(i // 7) % 3])
     if i % 9 == 4:
         case["cfg"] = dict(case["cfg"])
         case["cfg"]["include_comments"] = "stable"
